@@ -37,6 +37,9 @@ Proof.
   intros H. apply NI. apply in_map_iff in H. destruct H as (x & E & IN). apply filter_In in IN. rewrite <- E. apply in_map, IN.
 Qed.
 
+Lemma is_nil_map {A B} (f : A -> B) l : l <> [] -> is_nil (map f l) = false.
+Proof. destruct l; [congruence|reflexivity]. Qed.
+
 Section RT.
   Variable M : Q.
   Hypothesis HM : 0 < M.
@@ -312,5 +315,210 @@ Section RT.
     exists a10. split; [reflexivity|]. split.
     - rewrite R10, R8, R6. reflexivity.
     - rewrite C10, C8. reflexivity.
+  Qed.
+
+  (* ---- the final raw problem, row by row and column by column ---------------------------------------------------------------------------------- *)
+  Definition xrowF (r : mrow) : xrow :=
+    {| xw_name := mr_name r; xw_sense := Some (ksense (mr_sense r));
+       xw_rhs := match rhs_entry r with Some v => rr v | None => 0 end;
+       xw_rhsind := match rhs_entry r with Some _ => true | None => false end;
+       xw_rng := if m_rangeval P then option_map rr (range_entry r) else None |}.
+  Definition rowsF : list xrow := objrow :: map xrowF used.
+  Definition colbst (c : mcol) : bst := fold_left apply_rd (mps_records M (mc_lo c) (mc_up c) (mc_int c)) bst0.
+  Definition xcolF (c : mcol) : xcol :=
+    {| xc_name := mc_name c; xc_int := mc_int c; xc_sos := None; xc_ent := rev (rd_ents (col_es on c)); xc_bnd := colbst c |}.
+
+  Lemma on_not_entry g : lookupQ on (opt_entries g used) = None.
+  Proof. apply lookupQ_notin. intros H. apply (w_fresh WF). now apply (opt_entries_names g used). Qed.
+
+  Lemma rows8_eq : rows8 = rowsF.
+  Proof.
+    unfold rows8, rows6, rows2, rowsF, rows_upd.
+    change (sec_rhs S0) with (opt_entries rhs_entry used).
+    change (sec_ranges S0) with (if m_rangeval P then Some (opt_entries range_entry used) else None).
+    change (sec_rows S0) with (map (fun r => (match mr_sense r with SR => SG | s0 => s0 end, mr_name r)) used).
+    cbn [map]. f_equal.
+    - cbn [objrow new_row xw_name]. rewrite on_not_entry. cbn [xw_name].
+      destruct (m_rangeval P); [rewrite on_not_entry|]; reflexivity.
+    - rewrite !map_map. apply map_ext_in. intros r IR.
+      unfold xrow_new, xrowF. cbn [new_row xw_name fst snd].
+      rewrite (lookup_opt_entries rhs_entry used r used_nodup IR).
+      assert (KS : ksense (match mr_sense r with SR => SG | s0 => s0 end) = ksense (mr_sense r)) by (destruct (mr_sense r); reflexivity).
+      destruct (rhs_entry r); (destruct (m_rangeval P); cbn [set_rhs_row new_row xw_name];
+        [rewrite (lookup_opt_entries range_entry used r used_nodup IR); destruct (range_entry r)|]); rewrite KS; reflexivity.
+  Qed.
+
+  Lemma fold_bnd_filter : forall (items : list (mrec * name)) c0,
+    fold_left (fun c it => if leqb (snd it) (xc_name c) then bnd_col M (fst it) c else c) items c0 =
+    fold_left (fun c r => bnd_col M r c) (map fst (filter (fun it => leqb (snd it) (xc_name c0)) items)) c0.
+  Proof.
+    induction items as [|it items IH]; intros c0; [reflexivity|]. cbn [fold_left filter].
+    destruct (leqb _ _) eqn:E; [|apply IH]. cbn [map fold_left]. rewrite IH, bnd_col_name. reflexivity.
+  Qed.
+
+  Lemma fold_bnd_col : forall recs c0,
+    fold_left (fun c r => bnd_col M r c) recs c0 =
+    {| xc_name := xc_name c0; xc_int := xc_int c0; xc_sos := xc_sos c0; xc_ent := xc_ent c0; xc_bnd := fold_left apply_rd recs (xc_bnd c0) |}.
+  Proof.
+    induction recs as [|r recs IH]; intros c0; [destruct c0; reflexivity|]. cbn [fold_left]. rewrite IH. unfold bnd_col, apply_rd.
+    pose proof (set_bound_rec_int r (rec_val r) (xc_bnd c0) (xc_int c0)) as SI. pose proof (set_bound_rec_bst r (rec_val r) (xc_bnd c0) (xc_int c0)) as SB.
+    destruct (set_bound M (rec_type r) (rec_val r) (xc_bnd c0) (xc_int c0)) as [b i]. cbn [fst snd] in *. subst i. rewrite <- SB. reflexivity.
+  Qed.
+
+  Lemma cols10_eq : cols10 = map xcolF cols.
+  Proof.
+    destruct (w_cwf WF) as (CND & _).
+    unfold cols10, cols4, cols_bnd. rewrite map_map. apply map_ext_in. intros c IC.
+    rewrite fold_bnd_filter. cbn [xcol0 xc_name]. unfold S0. cbn [sections_of sec_bounds].
+    rewrite (records_of_col M (m_cols P) c CND IC), fold_bnd_col. reflexivity.
+  Qed.
+
+  (* ---- the conversion ---------------------------------------------------------------------------------------------------------------------------------- *)
+  Definition row_out (r : xrow) : mrow :=
+    match xw_sense r, xw_rng r with
+    | Some s, Some g => let tr := transfer (msense_of s) (xw_rhs r) g in
+                        {| mr_name := xw_name r; mr_sense := SR; mr_rhs := fst tr; mr_range := snd tr |}
+    | Some s, None => {| mr_name := xw_name r; mr_sense := s; mr_rhs := xw_rhs r; mr_range := 0 |}
+    | None, _ => {| mr_name := xw_name r; mr_sense := SE; mr_rhs := 0; mr_range := 0 |}
+    end.
+  Definition col_out (c : xcol) : mcol :=
+    {| mc_name := xc_name c; mc_obj := coefS (xc_ent c) on; mc_lo := fst (fill_in M (xc_bnd c) (xc_int c)); mc_up := snd (fill_in M (xc_bnd c) (xc_int c));
+       mc_int := xc_int c; mc_ent := rev (filter (fun e => negb (row_is_N rowsF (fst e))) (xc_ent c)) |}.
+  Definition PF (nm : option name) : mlp :=
+    {| m_probname := match nm with Some n => n | None => s2l "unnamed" end; m_max := m_max P; m_objname := on;
+       m_intmarker := existsb mc_int (map col_out (map xcolF cols));
+       m_rangeval := existsb (fun r => match xw_rng r with Some _ => true | None => false end) rowsF;
+       m_cols := map col_out (map xcolF cols); m_rows := map row_out (map xrowF used) |}.
+
+  Lemma upd_objrow f : f objrow = objrow -> upd_row on f rowsF = rowsF.
+  Proof.
+    intros FO. unfold upd_row, rowsF. cbn [map]. cbn [objrow new_row xw_name]. rewrite leqb_refl. fold objrow. rewrite FO. f_equal.
+    rewrite map_map. apply map_ext_in. intros r IR. cbn [xrowF xw_name].
+    destruct (leqb_spec (mr_name r) on) as [E|E]; [|reflexivity]. exfalso. apply (w_fresh WF). rewrite <- E. now apply in_map.
+  Qed.
+
+  Lemma row_is_N_F n : row_is_N rowsF n = leqb on n.
+  Proof.
+    unfold row_is_N, rowsF. cbn [find objrow new_row xw_name xw_sense]. destruct (leqb on n); [reflexivity|].
+    induction used as [|r l IH]; [reflexivity|]. cbn [map find xrowF xw_name]. destruct (leqb (mr_name r) n); [reflexivity|exact IH].
+  Qed.
+
+  Lemma col_decode c : In c cols ->
+    fst (fill_in M (colbst c) (mc_int c)) == mc_lo c /\ snd (fill_in M (colbst c) (mc_int c)) == mc_up c.
+  Proof. intros IC. destruct (w_cwf WF) as (_ & CW & _). destruct (CW c IC) as [LE _]. apply (mps_decode_rd (mc_lo c) (mc_up c) (mc_int c) LE). Qed.
+
+  Lemma col_has_entry c : In c cols -> existsb (fun e => leqb (fst e) on || negb (row_is_N rowsF (fst e))) (xc_ent (xcolF c)) = true.
+  Proof.
+    intros IC. destruct (w_cwf WF) as (_ & CW & CNE & _). destruct (CW c IC) as [_ NOBJ].
+    assert (NE : col_nonempty c = true) by (rewrite forallb_forall in CNE; now apply CNE).
+    cbn [xcolF xc_ent]. apply existsb_exists. unfold col_es, col_nonempty in *.
+    destruct (Qeq_bool (mc_obj c) 0).
+    - cbn [negb orb app] in *. destruct (mc_ent c) as [|e l] eqn:EE; [discriminate|].
+      exists (fst e, rr (snd e)). split; [rewrite <- in_rev; cbn [rd_ents map]; now left|]. cbn [fst].
+      rewrite row_is_N_F. cbn [forallb] in NOBJ. apply andb_true_iff in NOBJ as [A _]. apply negb_true_iff in A.
+      rewrite (leqb_sym on (fst e)). destruct (leqb (fst e) on) eqn:E'; [|reflexivity]. exfalso. exact (eq_true_false_abs _ E' A).
+    - exists (on, rr (mc_obj c)). split; [rewrite <- in_rev; cbn [app rd_ents map fst snd]; now left|]. cbn [fst]. now rewrite leqb_refl.
+  Qed.
+
+  Theorem finish_ok nm af : a_rows af = rowsF -> a_cols af = map xcolF cols -> finish M (mk nm (m_max P) on af) = MOk (PF nm).
+  Proof.
+    intros RF CF. unfold finish, has_row. cbn [mk x_obj x_refrow x_rows x_cols x_nsos x_name x_max]. rewrite RF, CF.
+    assert (HO : existsb (fun r => leqb (xw_name r) on) rowsF = true) by (unfold rowsF; cbn [existsb objrow new_row xw_name]; now rewrite leqb_refl).
+    rewrite HO. cbv zeta. rewrite !(upd_objrow _ eq_refl).
+    assert (NC : is_nil (map xcolF cols) = false) by (apply is_nil_map, cols_nonempty). rewrite NC.
+    assert (NS : filter (fun c => match xc_sos c with Some _ => true | None => false end) (map xcolF cols) = []).
+    { apply filter_none. intros x IN. apply in_map_iff in IN as (c & <- & _). reflexivity. }
+    rewrite NS. cbn [List.length Nat.ltb Nat.leb andb].
+    assert (NB : existsb (fun c => Qltb (snd (fill_in M (xc_bnd c) (xc_int c))) (fst (fill_in M (xc_bnd c) (xc_int c)))) (map xcolF cols) = false).
+    { apply existsb_none. intros x IN. apply in_map_iff in IN as (c & <- & IC). cbn [xcolF xc_bnd xc_int].
+      destruct (col_decode c IC) as [A B]. destruct (w_cwf WF) as (_ & CW & _). destruct (CW c IC) as [LE _]. apply Qltb_false. lra. }
+    rewrite NB.
+    assert (UA : filter (fun c => existsb (fun e => leqb (fst e) on || negb (row_is_N rowsF (fst e))) (xc_ent c)) (map xcolF cols) = map xcolF cols).
+    { apply filter_all. intros x IN. apply in_map_iff in IN as (c & <- & IC). now apply col_has_entry. }
+    rewrite UA, NC.
+    assert (CR : filter (fun r => match xw_sense r with Some _ => true | None => false end) rowsF = map xrowF used).
+    { unfold rowsF. cbn [filter objrow new_row xw_sense]. apply filter_all. intros x IN. apply in_map_iff in IN as (r & <- & _). reflexivity. }
+    rewrite CR.
+    assert (NR : is_nil (map xrowF used) = false) by (apply is_nil_map, (w_some WF)). rewrite NR.
+    assert (RN : existsb (fun r => match xw_sense r, xw_rng r with None, Some _ => true | _, _ => false end) rowsF = false).
+    { apply existsb_none. intros x [<-|IN]; [reflexivity|]. apply in_map_iff in IN as (r & <- & _). reflexivity. }
+    rewrite RN. reflexivity.
+  Qed.
+
+  (* ---- what was read is what was written --------------------------------------------------------------------------------------------------------------- *)
+  Lemma coefS_rev l n : coefS (rev l) n == coefS l n.
+  Proof. induction l as [|p l IH]; [reflexivity|]. cbn [rev]. rewrite coefS_app, IH. unfold coefS. cbn [fold_right]. destruct (leqb (fst p) n); lra. Qed.
+
+  Lemma filter_rev' {A} (f : A -> bool) l : filter f (rev l) = rev (filter f l).
+  Proof.
+    induction l as [|a l IH]; [reflexivity|]. cbn [rev filter]. rewrite filter_app, IH. cbn [filter]. destruct (f a); [reflexivity|]. now rewrite app_nil_r.
+  Qed.
+
+  Lemma ent_rel_rd es : ent_rel es (rd_ents es).
+  Proof. unfold ent_rel. induction es as [|e es IH]; [constructor|]. cbn [rd_ents map]. constructor; [|exact IH]. cbn [fst snd]. split; [reflexivity|]. symmetry. apply (rr_spec (snd e) [] I). Qed.
+
+  Lemma col_relF c : In c cols -> col_rel c (col_out (xcolF c)).
+  Proof.
+    intros IC. destruct (w_cwf WF) as (_ & CW & _). destruct (CW c IC) as [LE NOBJ]. fold on in NOBJ.
+    destruct (col_decode c IC) as [DL DU].
+    assert (KEEP : filter (fun e => negb (leqb on (fst e))) (rd_ents (mc_ent c)) = rd_ents (mc_ent c)).
+    { clear - NOBJ. unfold name in *. induction (mc_ent c) as [|e l IH]; [reflexivity|]. cbn [forallb] in NOBJ. apply andb_true_iff in NOBJ as [A B].
+      cbn [rd_ents map filter fst]. unfold name in *. rewrite leqb_sym, A. f_equal. apply IH, B. }
+    assert (ZERO : coefS (rd_ents (mc_ent c)) on == 0).
+    { clear - NOBJ. unfold name in *. induction (mc_ent c) as [|e l IH]; [reflexivity|]. cbn [forallb] in NOBJ. apply andb_true_iff in NOBJ as [A B].
+      cbn [rd_ents map coefS fold_right fst snd]. apply negb_true_iff in A. unfold name in *. rewrite A. unfold coefS, rd_ents in IH. rewrite (IH B). ring. }
+    unfold col_rel, col_out. cbn [xcolF xc_name xc_int xc_ent xc_bnd mc_name mc_obj mc_lo mc_up mc_int mc_ent].
+    repeat split; try (symmetry; assumption).
+    - rewrite coefS_rev. unfold col_es, rd_ents. rewrite map_app, coefS_app. fold (rd_ents (mc_ent c)). rewrite ZERO.
+      destruct (Qeq_bool (mc_obj c) 0) eqn:Z.
+      + apply Qeq_bool_iff in Z. cbn [map coefS fold_right]. rewrite Z. ring.
+      + cbn [map coefS fold_right fst snd]. rewrite leqb_refl. pose proof (proj2 (rr_spec (mc_obj c) [] I)). lra.
+    - rewrite filter_rev', rev_involutive.
+      assert (E : filter (fun e => negb (row_is_N rowsF (fst e))) (rd_ents (col_es on c)) = rd_ents (mc_ent c)).
+      { rewrite (filter_ext _ (fun e => negb (leqb on (fst e)))) by (intros; now rewrite row_is_N_F).
+        unfold col_es, rd_ents. rewrite map_app, filter_app. fold (rd_ents (mc_ent c)). unfold name in *. rewrite KEEP.
+        destruct (Qeq_bool (mc_obj c) 0); [reflexivity|]. cbn [map filter fst]. now rewrite leqb_refl. }
+      rewrite E. apply ent_rel_rd.
+  Qed.
+
+  Lemma row_relF r : In r used -> row_same_q r (row_out (xrowF r)).
+  Proof.
+    intros IR. destruct (w_rwf WF) as [_ RW]. specialize (RW r (used_in r IR)).
+    assert (RH : (match rhs_entry r with Some v => rr v | None => 0 end) == mr_rhs r).
+    { unfold rhs_entry. destruct (Qeq_bool (mr_rhs r) 0) eqn:Z; [apply Qeq_bool_iff in Z; now symmetry|apply (rr_spec (mr_rhs r) [] I)]. }
+    unfold row_same_q, row_out. cbn [xrowF xw_name xw_sense xw_rhs xw_rng].
+    destruct (mr_sense r) eqn:ES.
+    - assert (RE : range_entry r = None) by (unfold range_entry; rewrite ES; now rewrite (proj2 (Qeq_bool_iff _ _) RW)).
+      rewrite RE. cbn [option_map ksense]. destruct (m_rangeval P); cbn; repeat split; try (symmetry; exact RH); discriminate.
+    - assert (RE : range_entry r = None) by (unfold range_entry; rewrite ES; now rewrite (proj2 (Qeq_bool_iff _ _) RW)).
+      rewrite RE. cbn [option_map ksense]. destruct (m_rangeval P); cbn; repeat split; try (symmetry; exact RH); discriminate.
+    - assert (RE : range_entry r = None) by (unfold range_entry; rewrite ES; now rewrite (proj2 (Qeq_bool_iff _ _) RW)).
+      rewrite RE. cbn [option_map ksense]. destruct (m_rangeval P); cbn; repeat split; try (symmetry; exact RH); discriminate.
+    - destruct RW as [G0 RV]. rewrite RV. assert (RE : range_entry r = Some (mr_range r)) by (unfold range_entry; now rewrite ES).
+      rewrite RE. cbn [option_map ksense msense_of transfer fst snd mr_name mr_sense mr_rhs mr_range]. repeat split; try (symmetry; exact RH).
+      intros _. pose proof (proj2 (rr_spec (mr_range r) [] I)) as RG. symmetry. rewrite (Qabs_pos (rr (mr_range r))); [exact RG|lra].
+  Qed.
+
+  Theorem mps_roundtrip_strong :
+    exists P', read_mps true M (write_mps M P) = Some P' /\ m_max P' = m_max P /\ m_objname P' = m_objname P /\
+               Forall2 col_rel (m_cols P) (m_cols P') /\ Forall2 row_same_q (filter (row_used (m_cols P)) (m_rows P)) (m_rows P').
+  Proof.
+    destruct file_read as (nm & af & RUN & RF & CF). rewrite rows8_eq in RF. rewrite cols10_eq in CF.
+    exists (PF nm). split.
+    - unfold read_mps, read_mps_res. change (mloop true M (S (List.length (write_mps M P))) (write_mps M P) xraw0) with (mrun M (write_mps M P) xraw0).
+      rewrite RUN, (finish_ok nm af RF CF). reflexivity.
+    - cbn [PF m_max m_objname m_cols m_rows]. split; [reflexivity|]. split; [reflexivity|]. split.
+      + rewrite map_map. fold cols. assert (G : forall l, (forall c, In c l -> In c cols) -> Forall2 col_rel l (map (fun c => col_out (xcolF c)) l)).
+        { induction l as [|c l IH]; intros SUB; [constructor|]. cbn [map]. constructor; [apply col_relF, SUB; now left|apply IH; intros; apply SUB; now right]. }
+        apply G. auto.
+      + rewrite map_map. fold cols. fold used. assert (G : forall l, (forall r, In r l -> In r used) -> Forall2 row_same_q l (map (fun r => row_out (xrowF r)) l)).
+        { induction l as [|r l IH]; intros SUB; [constructor|]. cbn [map]. constructor; [apply row_relF, SUB; now left|apply IH; intros; apply SUB; now right]. }
+        apply G. auto.
+  Qed.
+
+  Theorem mps_roundtrip : exists P', read_mps true M (write_mps M P) = Some P' /\ equiv_by_name (mlp_to_nlp P) (mlp_to_nlp P') = true.
+  Proof.
+    destruct mps_roundtrip_strong as (P' & R & EM & _ & FC & FR). exists P'. split; [exact R|].
+    apply rel_equiv; [now symmetry|apply (w_cwf WF)|exact FC|exact FR].
   Qed.
 End RT.
